@@ -131,6 +131,19 @@ func (c04) Gen(r *rand.Rand, tier string, run int) *core.Case {
 			c.Ops = append(c.Ops, core.Op{Kind: kinds[r.IntN(len(kinds))], Actor: k, X: int64(conn), Y: int64(r.IntN(nObj)), S: strconv.FormatUint(r.Uint64()>>20, 16)})
 		}
 	}
+	if c.Params["crowd"] == 1 && r.IntN(2) == 0 {
+		// a raw peer floods one-way messages at a busy object: the queues of
+		// its connection overflow; what is shed must be shed silently
+		c.Params["raw"] = 2
+		n := 30 + r.IntN(40)
+		for i := 0; i < n; i++ {
+			typ := ref.Post
+			if r.IntN(6) == 0 {
+				typ = []int{ref.Cancel, ref.Capability, ref.Event, ref.Reply, ref.Error}[r.IntN(5)]
+			}
+			c.Ops = append(c.Ops, core.Op{Kind: "raw", Actor: 100, X: int64(typ), Y: int64([]int{ActSlow, ActSlow, ActFire}[r.IntN(3)]), S: "valid"})
+		}
+	}
 	if c.Params["raw"] == 1 {
 		n := 2 + r.IntN(8)
 		for i := 0; i < n; i++ {
